@@ -203,7 +203,39 @@ func parseFamilies(tier string) []family {
 				b.WriteString("\n")
 			}
 		}
-		return parseInput{Entry: "globals", Family: "globals", Text: b.String()}
+		text := b.String()
+		if eol := []string{"\n", "\r\n", "\r", "\n"}[r.Intn(4)]; eol != "\n" {
+			text = strings.ReplaceAll(text, "\n", eol)
+		}
+		if r.P(1, 3) {
+			text = strings.TrimRight(text, "\r\n")
+		}
+		if i%7 == 0 {
+			text = "// " + strings.Repeat("y", 4080+r.Intn(24)) + "\r\n" + text
+		}
+		return parseInput{Entry: "globals", Family: "globals", Text: text}
+	}})
+	// (8) quoted attribute expressions (they are parsed by a parser of their own): every token and every pair of tokens inside
+	// each attribute that holds an expression
+	quoted := []string{"{call .t data=\"%s\" /}", "{call .t}{param key=\"p\" value=\"%s\" /}{/call}", "{css %s, base}", "{call .t data=\"%s\"}{param p: 1 /}{/call}", "{call name=\".t\" data=\"%s\" /}"}
+	nq := len(E) + len(E)*len(E)
+	fams = append(fams, family{"quoted-expr", nq * len(quoted), func(i int, r *fw.Rand) parseInput {
+		c := quoted[i%len(quoted)]
+		i /= len(quoted)
+		e := ""
+		if i < len(E) {
+			e = E[i]
+		} else {
+			i -= len(E)
+			e = E[i%len(E)] + E[i/len(E)]
+			if r.Bool() {
+				e = E[i%len(E)] + " " + E[i/len(E)]
+			}
+		}
+		if strings.Contains(c, "=\"%s\"") {
+			e = strings.NewReplacer(`\`, `\\`, `"`, `\"`).Replace(e)
+		}
+		return parseInput{Entry: "file", Family: "quoted-expr", Text: "{namespace q}\n/** */\n{template .t}\n" + strings.Replace(c, "%s", e, 1) + "\n{/template}\n"}
 	}})
 	// (7) deep nesting: every bracketing construct repeated d times inside every place that takes an expression (and block
 	// commands nested d deep), balanced and cut short. Depths 12/24 carry the half-depth twin for the work-growth oracle;
